@@ -169,11 +169,17 @@ class C14(Property):
 
     # ------------------------------------------------------------------ operation histories
     def check_history(self, out, spec):
+        """operations act on a randomly chosen live grid (the original or one of its copies); after
+        every step ALL live grids must still reflect their own current data location"""
+        import random
+
         cfg = dict(spec["cfg"])
-        g = mg.make_grid(cfg)
-        cur = dict(cfg)
+        rnd = random.Random(repr(spec["ops"]))
+        live = [[mg.make_grid(cfg), dict(cfg)]]
         changed = 0
         for step, op in enumerate(spec["ops"]):
+            k = rnd.randrange(len(live))
+            g, cur = live[k]
             if op == "read_shape":
                 _ = g.data_shape
             elif op == "read_size":
@@ -183,7 +189,8 @@ class C14(Property):
             elif op == "read_all":
                 _ = (g.data_shape, g.data_size, g.data_axes)
             elif op in ("copy", "deepcopy"):
-                g = g.copy(deep=(op == "deepcopy"))
+                live.append([g.copy(deep=(op == "deepcopy")), dict(cur)])
+                out.count("grid_copies")
             elif op == "to_unstructured":
                 _ = g.to_unstructured()
             elif op in ("set_cells", "set_points"):
@@ -192,27 +199,32 @@ class C14(Property):
                     try:
                         g.data_location = loc
                         out.viol("location_check", "EsriGrid accepted POINTS data location", cfg=cfg)
-                        return
+                        return 0
                     except ValueError:
                         out.count("invalid_location_refused")
                         continue
                 changed += cur["location"] != loc
                 g.data_location = loc
                 cur["location"] = loc
-            exp_shape = mg.data_shape(cur)
-            n = int(np.prod(exp_shape))
-            got = (tuple(int(x) for x in g.data_shape), int(g.data_size), len(g.data_points))
-            out.count("history_steps")
-            if got != (exp_shape, n, n):
-                out.viol(
-                    "stale_after_history",
-                    f"after ops {spec['ops'][: step + 1]} (location now {cur['location']}): data_shape/data_size/len(data_points) = {got}, expected {(exp_shape, n, n)}",
-                    cfg=cfg, ops=spec["ops"][: step + 1],
-                )
-                return
-        self.check_config(out, cur, grid=g, tag=f"after history {spec['ops']}: ")
+            for j, (gg, cc) in enumerate(live):
+                exp_shape = mg.data_shape(cc)
+                n = int(np.prod(exp_shape))
+                got = (tuple(int(x) for x in gg.data_shape), int(gg.data_size), len(gg.data_points))
+                out.count("history_steps")
+                if got != (exp_shape, n, n):
+                    out.viol(
+                        "stale_after_history",
+                        f"after ops {spec['ops'][: step + 1]} (op applied to grid #{k}; grid #{j} has location {cc['location']}): "
+                        f"data_shape/data_size/len(data_points) = {got}, expected {(exp_shape, n, n)}",
+                        cfg=cfg, ops=spec["ops"][: step + 1],
+                    )
+                    return 0
+        for gg, cc in live[:3]:
+            self.check_config(out, cc, grid=gg, tag=f"after history {spec['ops']}: ")
         if changed:
             out.count("histories_with_location_change")
+        if len(live) > 1 and changed:
+            out.count("histories_with_copies_and_location_change")
         return changed
 
     def run(self, spec):
@@ -230,7 +242,7 @@ class C14(Property):
         return out
 
     def coverage_gaps(self, counters, tier):
-        need = ["configs_checked", "elements_checked", "cells_checked", "unstructured_casts", "history_steps", "histories_with_location_change"]
+        need = ["configs_checked", "elements_checked", "cells_checked", "unstructured_casts", "history_steps", "histories_with_location_change", "histories_with_copies_and_location_change"]
         return [f"{k} never observed" for k in need if not counters.get(k)]
 
 
